@@ -22,6 +22,7 @@ import ast
 import contextlib
 import io
 import os
+import re
 import time
 import zlib
 
@@ -37,12 +38,14 @@ PRE = ("From EsVerif.Common Require Import Base Bytes.\nFrom EsVerif.C15 Require
 PRE_STATIC = "From EsVerif.Common Require Import Base.\nFrom EsVerif.C15 Require Import Model Spec Exec.\n"
 
 BY_NAME = {d["name"]: d for d in drv.DRIVERS}
-FAMILIES = ["recfile", "fields", "byteorder", "match", "hist", "stat", "coords", "wcs", "cosmo", "htm"]
+FAMILIES = ["recfile", "fields", "byteorder", "match", "hist", "stat", "coords", "wcs", "cosmo", "htm", "integrate", "random"]
 STATIC_OK = {}          # driver name -> bool, filled by static_step
 EXEMPT_HITS = {}        # "driver.arg" -> number of calls in which the exempt (documented in-place) argument did change
 ERRORS = {}             # driver -> number of calls that raised (an exception is not a mutation)
 TIMES = {}              # phase -> seconds (reported in the evidence)
 SKIP = set()            # drivers whose target does not exist in this tree (d["needs"])
+RO_HITS = {}            # driver -> calls that raised "read-only" on a read-only (non-exempt) argument
+RO_MSG = re.compile(r"read-only|read only|readonly|not writeable|not writable|WRITEABLE", re.I)
 SHARE_HITS = {}         # driver -> number of calls whose return value shared memory with a (non-exempt) argument
 RET_STATIC = {}         # driver -> ids of the parameters the RETURN VALUE may share memory with (verified analysis, evaluated in Coq)
 PARAM_ID = {}           # driver -> {parameter name: id in its skeleton}
@@ -149,6 +152,12 @@ def values(kind, shape, rs):
         return np.sort(rs.uniform(-45, 45, size=n)).reshape(shape) + np.arange(n).reshape(shape)
     if kind == "vals":
         return rs.uniform(-9, 9, size=shape)
+    if kind == "pofx":
+        return np.exp(-0.5 * np.linspace(-2, 2, n) ** 2).reshape(shape) + 0.01
+    if kind == "grid":
+        return np.linspace(-2, 2, n).reshape(shape)
+    if kind in ("mean3", "pos3"):
+        return rs.uniform(-1, 1, size=shape)
     if kind == "strs":
         return np.array(["ab%d" % (i % 3) for i in range(n)]).reshape(shape)
     raise KeyError(kind)
@@ -163,7 +172,7 @@ def make_array(kind, dt, order, layout, nd, rs, nelem=6):
         shape = (nelem,)
     else:
         shape = (4, 3)
-    special = {"cov": (3, 3), "cor": (3, 3), "coef": (3, 3)}
+    special = {"cov": (3, 3), "cor": (3, 3), "coef": (3, 3), "mean3": (3,), "pos3": (nelem, 3)}
     if kind in special:
         shape = special[kind]
     if kind == "diag":
@@ -188,9 +197,12 @@ def make_array(kind, dt, order, layout, nd, rs, nelem=6):
         bo = {"native": "=", "swapped": ">" if np.little_endian else "<", "mixed": ">" if np.little_endian else "<"}[order]
         dtype = np.dtype(bo + t)
     # ---- base buffer and view
-    if layout == "contig":
+    if layout == "contig" or (layout == "reversed" and shape == ()):
         base = np.zeros(shape, dtype=dtype)
         a = base
+    elif layout == "reversed":            # negative strides: a view that runs backwards through its base
+        base = np.zeros(shape, dtype=dtype)
+        a = base[::-1] if len(shape) == 1 else base[::-1, ::-1]
     else:
         if shape == ():
             base = np.zeros(3, dtype=dtype)
@@ -204,7 +216,7 @@ def make_array(kind, dt, order, layout, nd, rs, nelem=6):
     assert a.shape == shape, (a.shape, shape)
     # ---- values
     if dtype.names is not None:
-        if layout != "contig":
+        if layout == "strided":
             fill_rec(base, rs)
         if kind == "wcsrec":
             hdr = ns_const("TAN_HDR")
@@ -215,7 +227,7 @@ def make_array(kind, dt, order, layout, nd, rs, nelem=6):
             fill_rec(tmp, rs)
             a[...] = tmp
     else:
-        if layout != "contig":
+        if layout == "strided":
             base[...] = rs.uniform(1, 2, size=base.shape).astype(dtype)
         if kind == "cov":
             m = rs.uniform(-1, 1, size=(3, 3))
@@ -228,6 +240,8 @@ def make_array(kind, dt, order, layout, nd, rs, nelem=6):
             v = values(kind, shape, rs)
         if dtype.kind in "iu":
             v = np.round(v)
+        if dtype.kind == "u":
+            v = np.abs(v)
         a[...] = v
     return a
 
@@ -311,28 +325,97 @@ def shares(res, a):
     return False
 
 
-def variants(d, ctx, full):
-    """the argument matrix of one driver"""
+NO_SPECIAL = {"cov", "cor", "coef", "diag", "sx", "uniq", "uniq_sorted", "int", "flag", "pofx", "grid", "mean3", "wcsrec", "strs"}
+SPECIALS = [-0.0, float("nan"), float("inf"), 5e-324, float("-inf")]
+
+
+def put_special(a):
+    """-0.0, NaN, +-inf, the smallest denormal in the first elements of every float (sub)field: "bit-for-bit unchanged" includes them"""
+    import numpy as np
+    if a.dtype.names is not None:
+        for n in a.dtype.names:
+            if a.dtype[n].base.kind == "f":
+                put_special(a[n])
+        return
+    if a.dtype.kind != "f" or a.size == 0:
+        return
+    flat = a.reshape(-1) if a.ndim else a.reshape(1)        # a view for the layouts used here (writes go into a's buffer)
+    if not np.shares_memory(flat, a):
+        return
+    with np.errstate(all="ignore"):
+        for i in range(min(flat.size, len(SPECIALS))):
+            flat[i] = SPECIALS[i]
+
+
+NELEM = {"len1": 1, "long": 4099}        # 4099 = 2**12 + 3: beyond any plausible internal block size of the python / C layers
+
+
+def n_checked(d):
+    arr, _ = params_of(d)
+    return len([p for p in arr if p not in d["exempt"]])
+
+
+def forms(d, full):
+    """further INPUT FORMS of one driver, as (dtype, order, layout, ndim, mode):
+         ro      the arrays are READ-ONLY (writeable=False on the view and on its base): code that would silently write into
+                 the caller's array now raises "... read-only"; such an exception is reported as a failing input
+         alias0 / alias1   the SAME array object is passed for every (non-exempt) array parameter (the first / the last one's)
+         reversed layout   a view with negative strides
+         special -0.0, NaN, +-inf and the smallest denormal in the first elements of every float array / float field
+         len1    length-1 arrays;  long  4099 elements (thorough only)
+         unsigned / bool dtypes where the driver takes plain numeric arrays"""
+    dt0, nd0 = d["dt"][0], d["nd"][0]
+    nd1 = 1 if 1 in d["nd"] else nd0
     orders = ["native", "swapped"] + (["mixed"] if d["dt"] == drv.REC else [])
-    allv = [(dt, o, lay, nd) for dt in d["dt"] for o in orders for lay in ("contig", "strided") for nd in d["nd"]]
+    out = [(dt0, "native", "contig", nd0, "ro"), (dt0, "swapped", "strided", nd1, "ro")]
+    if n_checked(d) >= 2:
+        out += [(dt0, "native", "contig", nd1, "alias0"), (dt0, "native", "contig", nd1, "alias1")]
+    if nd1 >= 1:
+        out.append((dt0, "native", "reversed", nd1, "plain"))
+    out.append((dt0, "native", "contig", nd1, "special"))
+    if "f4" in d["dt"]:
+        out.append(("f4", "native", "contig", nd1, "special"))
+    if 1 in d["nd"] and not d["slow"]:
+        out.append((dt0, "native", "contig", 1, "len1"))
+    if d["dt"] == drv.NUM:
+        out.append(("u2", "native", "contig", nd1, "plain"))
+        out.append(("b1", "native", "contig", nd1, "plain"))
+    if full:
+        out += [(dt, o, lay, nd, "ro") for dt in d["dt"] for o in orders for lay in ("contig", "strided", "reversed") for nd in d["nd"]]
+        out += [(dt, o, "reversed", nd, "plain") for dt in d["dt"] for o in orders for nd in d["nd"]]
+        if n_checked(d) >= 2:
+            out += [(dt0, o, lay, nd, m) for o in orders for lay in ("contig", "strided") for nd in d["nd"] for m in ("alias0", "alias1")]
+            out += [(dt0, "native", "contig", nd1, "alias0+ro")]
+        if d["dt"] == drv.NUM:
+            out += [(t, o, lay, nd1, "plain") for t in ("u2", "u8", "b1", "i2") for o in ("native", "swapped") for lay in ("contig", "strided")]
+        if 1 in d["nd"] and not d["slow"]:
+            out += [(dt0, "native", "contig", 1, "long"), (dt0, "swapped", "strided", 1, "len1")]
+        out += [(dt0, o, lay, nd1, "special") for o in orders for lay in ("contig", "strided")]
+    return list(dict.fromkeys(out))
+
+
+def variants(d, ctx, full):
+    """the argument matrix of one driver: (dtype, order, layout, ndim, mode)"""
+    orders = ["native", "swapped"] + (["mixed"] if d["dt"] == drv.REC else [])
+    allv = [(dt, o, lay, nd, "plain") for dt in d["dt"] for o in orders for lay in ("contig", "strided") for nd in d["nd"]]
     if full or len(allv) <= d["n"]:
-        return allv
+        return allv + forms(d, full)
     # quick tier: per ndim ALWAYS the corner in which NO conversion is needed (first dtype, native, contiguous: the only place
     # where a forgotten copy -- np.asarray / copy=None / astype(copy=False) -- hands the caller's own buffer to later in-place
     # code) and the most demanding corner (swapped + strided); then one corner per other dtype; then a seeded sample
     r = ctx.rng
     must = []
     for nd in d["nd"]:
-        must.append((d["dt"][0], "native", "contig", nd))
-    must.append((d["dt"][0], "swapped", "strided", d["nd"][0]))
-    must.append((d["dt"][0], "native", "strided", d["nd"][0]))
+        must.append((d["dt"][0], "native", "contig", nd, "plain"))
+    must.append((d["dt"][0], "swapped", "strided", d["nd"][0], "plain"))
+    must.append((d["dt"][0], "native", "strided", d["nd"][0], "plain"))
     if len(d["dt"]) > 1:
-        must.append((d["dt"][1], "swapped", "contig", d["nd"][0]))
-        must.append((d["dt"][-1], "native", "strided", d["nd"][0]))
+        must.append((d["dt"][1], "swapped", "contig", d["nd"][0], "plain"))
+        must.append((d["dt"][-1], "native", "strided", d["nd"][0], "plain"))
     must = list(dict.fromkeys(must))
     rest = [v for v in allv if v not in must]
     r.shuffle(rest)
-    return (must + rest)[:max(d["n"], len(must))]
+    return (must + rest)[:max(d["n"], len(must))] + forms(d, False)
 
 
 class Dyn(Entry):
@@ -353,16 +436,20 @@ class Dyn(Entry):
             if round > 0 and STATIC_OK.get(d["name"], True):
                 continue            # the search concentrates on drivers whose obligation failed
             if d["slow"] and ctx.quick() and round == 0:
-                vs = variants(d, ctx, False)[:2]
+                vs = variants(d, ctx, False)
+                vs = vs[:2] + [v for v in vs if v[4] == "ro"][:1]
             else:
                 vs = variants(d, ctx, full)
             seeds = [0] if (ctx.quick() and round == 0) else ([0, 1] if round == 0 else [2 + round, 12 + round])
             if d["slow"]:
                 seeds = seeds[:1]
-            for (dt, o, lay, nd) in vs:
-                for vs_ in seeds:
-                    cs.append({"driver": d["name"], "dt": dt, "order": o, "layout": lay, "nd": nd, "vseed": vs_,
-                               "family": "%s/%s" % (self.fam, d["func"])})
+            for (dt, o, lay, nd, mode) in vs:
+                for vs_ in (seeds if mode == "plain" and lay != "reversed" else seeds[:1]):
+                    c = {"driver": d["name"], "dt": dt, "order": o, "layout": lay, "nd": nd, "vseed": vs_,
+                         "family": "%s/%s" % (self.fam, d["func"])}
+                    if mode != "plain":
+                        c["mode"] = mode
+                    cs.append(c)
         return cs
 
     def fn(self, d):
@@ -384,10 +471,27 @@ class Dyn(Entry):
         d = BY_NAME[c["driver"]]
         arr, fix = params_of(d)
         seed = zlib.crc32(("%s/%s/%s/%s/%s/%s" % (c["driver"], c["dt"], c["order"], c["layout"], c["nd"], c["vseed"])).encode())
+        # (the mode is deliberately not part of the value seed: a read-only / aliased case uses the values of its plain twin)
         rs = np.random.RandomState(seed)
         args = {}
+        mode = c.get("mode", "plain")
+        nelem = NELEM.get(mode, 6)
         for p in arr:
-            args[p] = make_array(d["gen"][p], c["dt"], c["order"], c["layout"], c["nd"], rs)
+            args[p] = make_array(d["gen"][p], c["dt"], c["order"], c["layout"], c["nd"], rs, nelem=nelem)
+        checked = [p for p in arr if p not in d["exempt"]]
+        if mode == "special":                                   # bit patterns that a "harmless" normalisation would rewrite
+            for p in arr:
+                if d["gen"][p] not in NO_SPECIAL:
+                    put_special(args[p])
+        if mode.startswith("alias") and len(checked) >= 2:      # the SAME array object for every non-exempt array parameter
+            src = args[checked[0] if mode.startswith("alias0") else checked[-1]]
+            for p in checked:
+                args[p] = src
+        if mode.endswith("ro"):                                 # read-only: the view and the buffer it looks into
+            for p in checked:
+                b = root_base(args[p])
+                b.flags.writeable = False
+                args[p].flags.writeable = False
         work = os.path.join(os.environ.get("C15_WORK") or core.SCRATCH_ROOT, "c15-files-%d" % os.getpid())
         os.makedirs(work, exist_ok=True)
         for p, ann in fix:
@@ -404,9 +508,14 @@ class Dyn(Entry):
             with contextlib.redirect_stdout(sink), contextlib.redirect_stderr(sink), np.errstate(all="ignore"):
                 res = self.fn(d)(**args)      # noqa: F841  (kept alive until the snapshots are taken)
         except Exception as e:  # an exception is not a mutation; it is recorded
-            err = "%s: %s" % (type(e).__name__, str(e)[:80])
+            err = "%s: %s" % (type(e).__name__, str(e)[:200])
         after = {p: snapshot(args[p]) for p in arr}
         out = {"error": err, "args": {}, "exempt_changed": []}
+        # a refused write into a read-only argument: without the flag the call would have modified the caller's array
+        out["ro_write_attempt"] = bool(mode.endswith("ro") and err is not None and RO_MSG.search(err))
+        if out["ro_write_attempt"]:
+            RO_HITS[c["driver"]] = RO_HITS.get(c["driver"], 0) + 1
+            DYN_CHANGED.setdefault(c["driver"], dict(c))
         out["ret_shares"] = sorted(p for p in arr if p not in d["exempt"] and err is None and shares(res, args[p]))
         if out["ret_shares"]:
             SHARE_HITS[c["driver"]] = SHARE_HITS.get(c["driver"], 0) + 1
@@ -432,7 +541,7 @@ class Dyn(Entry):
         ok = STATIC_OK.get(c["driver"], False)
         pid = PARAM_ID.get(c["driver"], {})
         obs = [pid[p] for p in out.get("ret_shares", []) if p in pid]
-        return "v_dynamic_alias %s [%s] [%s] [%s]" % (cbool(ok), "; ".join("%d" % k for k in RET_STATIC.get(c["driver"], [])),
+        return "v_case %s %s [%s] [%s] [%s]" % (cbool(bool(out.get("ro_write_attempt"))), cbool(ok), "; ".join("%d" % k for k in RET_STATIC.get(c["driver"], [])),
                                                     "; ".join("%d" % k for k in obs), "; ".join(pairs))
 
     def nontrivial(self, c, out):
@@ -512,6 +621,11 @@ def static_step(ctx, only=None):
         if (only and d["name"] not in only) or d["name"] in SKIP:
             continue
         r = ex[d["name"]]
+        if d.get("static_skip"):
+            STATIC_OK[d["name"]] = False          # no prediction: a changed argument is still a failing input (verdict 2)
+            ctx.notes.append("NO static obligation for %s (dynamic only): %s" % (d["name"], d["static_skip"]))
+            ctx.count("static:skipped_known_imprecision")
+            continue
         if not r["checked"]:
             STATIC_OK[d["name"]] = True      # every array argument is exempt: nothing to prove
             continue
@@ -641,10 +755,13 @@ def search_failed(ctx, names):
         cases = []
         for n in ds:
             d = BY_NAME[n]
-            for (dt, o, lay, nd) in variants(d, ctx, True):
-                for vs_ in ((5,) if d["slow"] else (5, 6)):
-                    cases.append({"driver": n, "dt": dt, "order": o, "layout": lay, "nd": nd, "vseed": vs_,
-                                  "family": "%s/%s" % (ent.fam, d["func"]), "entry": ent.name})
+            for (dt, o, lay, nd, mode) in variants(d, ctx, True):
+                for vs_ in ((5,) if d["slow"] or mode != "plain" else (5, 6)):
+                    c = {"driver": n, "dt": dt, "order": o, "layout": lay, "nd": nd, "vseed": vs_,
+                         "family": "%s/%s" % (ent.fam, d["func"]), "entry": ent.name}
+                    if mode != "plain":
+                        c["mode"] = mode
+                    cases.append(c)
         res = run_entry(ctx, PRE, ent, cases, "search_" + ent.name)
         ctx.count("search_cases:" + ent.name, len(res))
         seen = set()
@@ -712,6 +829,8 @@ def run(ctx, replay=None):
         ctx.count("calls_raised:" + k, v)
     ctx.count("ret_alias:calls_whose_result_shared_memory_with_an_argument", sum(SHARE_HITS.values()))
     ctx.count("ret_alias:drivers_observed_sharing", len(SHARE_HITS))
+    for k, v in sorted(RO_HITS.items()):
+        ctx.count("read_only_write_attempt:" + k, v)
     # cross-check static <-> dynamic.  The runner reports ONE failing input per entry and class; every driver in
     # which the dynamic run saw a non-exempt argument change (DYN_CHANGED, recorded by impl) has a failing input
     dyn_fail = set(DYN_CHANGED)
